@@ -1,0 +1,56 @@
+//go:build verif
+
+// Machine-checked contracts for the functions of package websocket, consumed by
+// the gvc verifier in /verif (comment-only: this file adds no code to the package).
+// Syntax: see /verif/DESIGN.md section 2.4.
+package websocket
+
+// ---------------------------------------------------------------------------
+// mask.go  (C17; used by C01, C02, C03)
+//
+// RFC 6455 section 5.3 as spec functions specMaskByte / specRot (/verif/spec/mask.go).
+// In ensures clauses parameter names denote entry values; old(b[i]) reads the entry
+// memory, b[i] the final memory. In loop invariants b, key denote the current values
+// of the (mutated) parameters and old(b), old(key) their entry values.
+
+//@ func maskGo
+//@ tags C17 C01 C02 C03
+//@ modifies bytes(b)
+//@ ensures [rot] result == specRot(key, len(b))
+//@ ensures [xor] forall(0, len(b), func(i int) bool { return b[i] == old(b[i]) ^ specMaskByte(key, i) })
+//@ loop 1 modifies bytes(b)
+//@ loop 1 decreases len(b)
+//@ loop 1 invariant [suffix] gvcSuffixOf(b, old(b)) && (len(old(b))-len(b))%4 == 0 && key == old(key)
+//@ loop 1 invariant [done] forall(0, len(old(b))-len(b), func(i int) bool { return old(b)[i] == old(b[i]) ^ specMaskByte(old(key), i) })
+//@ loop 1 invariant [rest] forall(len(old(b))-len(b), len(old(b)), func(i int) bool { return old(b)[i] == old(b[i]) })
+//@ loop 2 modifies bytes(b)
+//@ loop 2 decreases len(b)
+//@ loop 2 invariant [suffix] gvcSuffixOf(b, old(b)) && (len(old(b))-len(b))%4 == 0 && key == old(key)
+//@ loop 2 invariant [done] forall(0, len(old(b))-len(b), func(i int) bool { return old(b)[i] == old(b[i]) ^ specMaskByte(old(key), i) })
+//@ loop 2 invariant [rest] forall(len(old(b))-len(b), len(old(b)), func(i int) bool { return old(b)[i] == old(b[i]) })
+//@ loop 3 modifies bytes(b)
+//@ loop 3 decreases len(b)
+//@ loop 3 invariant [suffix] gvcSuffixOf(b, old(b)) && (len(old(b))-len(b))%4 == 0 && key == old(key)
+//@ loop 3 invariant [done] forall(0, len(old(b))-len(b), func(i int) bool { return old(b)[i] == old(b[i]) ^ specMaskByte(old(key), i) })
+//@ loop 3 invariant [rest] forall(len(old(b))-len(b), len(old(b)), func(i int) bool { return old(b)[i] == old(b[i]) })
+//@ loop 4 modifies bytes(b)
+//@ loop 4 decreases len(b)
+//@ loop 4 invariant [suffix] gvcSuffixOf(b, old(b)) && (len(old(b))-len(b))%4 == 0 && key == old(key)
+//@ loop 4 invariant [done] forall(0, len(old(b))-len(b), func(i int) bool { return old(b)[i] == old(b[i]) ^ specMaskByte(old(key), i) })
+//@ loop 4 invariant [rest] forall(len(old(b))-len(b), len(old(b)), func(i int) bool { return old(b)[i] == old(b[i]) })
+//@ loop 5 modifies bytes(b)
+//@ loop 5 decreases len(b)
+//@ loop 5 invariant [suffix] gvcSuffixOf(b, old(b)) && (len(old(b))-len(b))%4 == 0 && key == old(key)
+//@ loop 5 invariant [done] forall(0, len(old(b))-len(b), func(i int) bool { return old(b)[i] == old(b[i]) ^ specMaskByte(old(key), i) })
+//@ loop 5 invariant [rest] forall(len(old(b))-len(b), len(old(b)), func(i int) bool { return old(b)[i] == old(b[i]) })
+//@ loop 6 modifies bytes(b)
+//@ loop 6 decreases len(b)
+//@ loop 6 invariant [suffix] gvcSuffixOf(b, old(b)) && (len(old(b))-len(b))%4 == 0 && key == old(key)
+//@ loop 6 invariant [done] forall(0, len(old(b))-len(b), func(i int) bool { return old(b)[i] == old(b[i]) ^ specMaskByte(old(key), i) })
+//@ loop 6 invariant [rest] forall(len(old(b))-len(b), len(old(b)), func(i int) bool { return old(b)[i] == old(b[i]) })
+//@ loop 7 modifies bytes(b)
+//@ loop 7 decreases len(b) - rangeindex
+//@ loop 7 invariant [idx] -1 <= rangeindex && rangeindex < len(b) && gvcSuffixOf(b, old(b)) && (len(old(b))-len(b))%4 == 0
+//@ loop 7 invariant [key] key == specRot(old(key), rangeindex+1)
+//@ loop 7 invariant [done] forall(0, len(old(b))-len(b)+rangeindex+1, func(i int) bool { return old(b)[i] == old(b[i]) ^ specMaskByte(old(key), i) })
+//@ loop 7 invariant [rest] forall(len(old(b))-len(b)+rangeindex+1, len(old(b)), func(i int) bool { return old(b)[i] == old(b[i]) })
